@@ -1,6 +1,7 @@
 package props
 
 import (
+	"errors"
 	"fmt"
 	"sort"
 	"strings"
@@ -416,7 +417,63 @@ func isCatchCode(code string) bool {
 	return strings.HasPrefix(code, "cc_") || strings.HasPrefix(code, "cr_")
 }
 
+// c05OwnIssue: a custom test of a catching node that files its own issue (built with ctx.Issue(), carrying an error, a code, a
+// message or another path) has failed like any other test: no issue, destination == catch value.
+func c05OwnIssue(c *core.Ctx) bool {
+	variant := c.R.Intn(4)
+	file := func(v any, ctx z.Ctx) {
+		is := ctx.Issue()
+		switch variant {
+		case 0:
+			is.SetError(errors.New("lookup failed"))
+		case 1:
+			is.SetCode("app_code").SetMessage("the application's message")
+		case 2:
+			is.SetPath("elsewhere").SetError(fmt.Errorf("wrapped: %w", errors.New("inner")))
+		default:
+			is.SetParams(map[string]any{"k": 1})
+		}
+		ctx.AddIssue(is)
+	}
+	leaf := func() *z.StringSchema[string] { return z.String().Test(z.Test{Func: file}).Catch("CAUGHT") }
+	type rec struct {
+		A string
+		B string
+		L []string
+		P *string
+	}
+	sch := z.Struct(z.Schema{"a": leaf(), "b": z.String().Min(1), "l": z.Slice(leaf()), "p": z.Ptr(leaf())})
+	for _, mode := range []string{"Parse", "Validate"} {
+		var d rec
+		var issues z.ZogIssueMap
+		if mode == "Parse" {
+			issues = sch.Parse(map[string]any{"a": "value", "b": "ok", "l": []any{"x", "y"}, "p": "z"}, &d)
+		} else {
+			pv := "z"
+			d = rec{A: "value", B: "ok", L: []string{"x", "y"}, P: &pv}
+			issues = sch.Validate(&d)
+		}
+		c.Eval(1)
+		ok := issues == nil && d.A == "CAUGHT" && d.B == "ok" && len(d.L) == 2 && d.L[0] == "CAUGHT" && d.L[1] == "CAUGHT" && d.P != nil && *d.P == "CAUGHT"
+		if !ok {
+			pval := "<nil>"
+			if d.P != nil {
+				pval = *d.P
+			}
+			c.Violation("catching-schema-has-extra-issue|"+mode, map[string]any{"schema": "{a: String().Test(files its own issue).Catch(CAUGHT), b: String().Min(1), l: Slice(same leaf), p: Ptr(same leaf)}",
+				"what_the_test_files": []string{"issue with an error", "issue with code and message", "issue with another path and a wrapped error", "issue with params"}[variant],
+				"issues": fmt.Sprint(z.Issues.SanitizeMap(issues)), "destination": fmt.Sprintf("A=%q B=%q L=%q P=%q", d.A, d.B, d.L, pval)})
+			return false
+		}
+	}
+	c.Count("own_issue_scenarios", 2)
+	return true
+}
+
 func (c05) RunCase(c *core.Ctx) {
+	if c.Case%40 == 5 && !c05OwnIssue(c) {
+		return
+	}
 	S := c05Schema(c.R)
 	markCatching(S, c.R)
 	Sp := withoutCatch(S, map[*spec.Node]*spec.Node{})
